@@ -174,4 +174,6 @@ Call(c) ==
          IF ~d.ok THEN (IF d.lax THEN Unspec ELSE Err)
          ELSE IF \A i \in 1..Len(d.bs) : d.bs[i] < 128 THEN Ok(VStr(d.bs)) ELSE Unspec   \* bytes >= 0x80: Latin-1 vs UTF-8
     [] c.f = "parseJson"   -> LET r == Reader(c.s) IN IF r.ok THEN (IF r.v.t = "numtext" THEN Unspec ELSE Ok(r.v)) ELSE Err
+    \* YAML is a superset of JSON: on a JSON text parseYaml gives what parseJson gives; other texts are not decided here
+    [] c.f = "parseYaml"   -> LET r == Reader(c.s) IN IF r.ok /\ r.v.t # "numtext" THEN Ok(r.v) ELSE Unspec
 =============================================================================
